@@ -623,7 +623,7 @@ func run(c *mon.Custom) {
 	}
 	wg.Wait()
 
-	deliveries := []string{"stdin", "file", "multi", "dash", "outfile", "manyfiles"}
+	deliveries := []string{"stdin", "file", "multi", "dash", "outfile", "manyfiles", "devstdin"}
 	type job struct {
 		i int
 		d string
@@ -732,6 +732,21 @@ func checkDelivery(c *mon.Custom, cli string, s *Script, e *Expect, delivery str
 			stdin = ps[0]
 		default: // files first, standard input last
 			args = []string{write("a.pql", ps[0]), write("b.pql", ps[1]), "-"}
+			stdin = ps[2]
+		}
+	case "devstdin":
+		// standard input named as a FILE among the others (not a regular file:
+		// it has no size to speak of, yet it delivers data)
+		ps := cut(3)
+		switch rng.Intn(3) {
+		case 0:
+			args = []string{write("a.pql", ps[0]), "/dev/stdin", write("c.pql", ps[2])}
+			stdin = ps[1]
+		case 1:
+			args = []string{"/dev/stdin", write("b.pql", ps[1]), write("c.pql", ps[2])}
+			stdin = ps[0]
+		default:
+			args = []string{write("a.pql", ps[0]), write("b.pql", ps[1]), "/dev/stdin"}
 			stdin = ps[2]
 		}
 	case "samefile":
